@@ -144,6 +144,19 @@ MirrorVerdict(s, oa, ob) ==
          THEN "Inv_C09_Mirror_dedup"
     ELSE "ok"
 
+(* Another read of the SAME cut with a different geometry: other soft clips, mate present/absent, and for MNase the *)
+(* other demultiplexing layout.  Same cut, cell and UMI => the two fragments must be equal for deduplication.       *)
+Companion(s) == [s EXCEPT !.clip  = (s.clip + 3) % 7,
+                          !.clip3 = IF s.clip3 = 0 THEN 2 ELSE 0,
+                          !.kind  = IF s.kind = "trimmed" THEN "untrimmed" ELSE IF s.kind = "untrimmed" THEN "trimmed" ELSE s.kind,
+                          !.r2    = IF s.r2 = "none" THEN "proper" ELSE IF s.r2 = "proper" THEN "none" ELSE s.r2]
+(* eqa / eqb: result of the code's own fragment equality between a read and its companion, in either orientation *)
+DedupVerdict(s, eqa, eqb) ==
+    IF ~InScope(s) THEN "ok"
+    ELSE IF eqa # eqb THEN "Inv_C09_Mirror_dedup_eq"
+    ELSE IF MustAccept(s) /\ ~s.opts.no_cigar /\ ~eqa THEN "Inv_C09_Dedup_same_cut"
+    ELSE "ok"
+
 ---------------------------------------------------------------------------------------------------
 (* D-level: what identify_site computes from the alignment record *)
 ClipStart(r) == IF r.cigar[1][1] = 4 THEN r.cigar[1][2] ELSE 0
